@@ -1,7 +1,32 @@
 """seeded edits used by tools/selftest.py to validate the checks themselves (engine soundness / no false alarms).
 expect: 'violation' (property-breaking) or 'ok' (property-preserving refactor)."""
 T = "wannierberri/grid/tetrahedron.py"
+U_ = "wannierberri/utility.py"
 MUTANTS = [
+    dict(prop="C15", name="get_borders: > becomes >=", file=T, old="borders = [0] + list(np.where((A[1:] - A[:-1]) > degen_thresh)[0] + 1) + [len(A)]",
+         new="borders = [0] + list(np.where((A[1:] - A[:-1]) >= degen_thresh)[0] + 1) + [len(A)]"),
+    dict(prop="C15", name="get_borders: off by one (no +1)", file=T, old="borders = [0] + list(np.where((A[1:] - A[:-1]) > degen_thresh)[0] + 1) + [len(A)]",
+         new="borders = [-1] + list(np.where((A[1:] - A[:-1]) > degen_thresh)[0]) + [len(A)]"),
+    dict(prop="C15", name="get_borders: Kramers keeps odd", file=T, old="borders = [i for i in borders if i % 2 == 0]", new="borders = [i for i in borders if i % 2 == 0 or i == 1]"),
+    dict(prop="C15", name="find_degen: last border len-1", file=U_, old="A = [0, ] + list(A) + [len(arr)]", new="A = [0, ] + list(A) + [len(arr) + 1]"),
+    dict(prop="C15", name="window: upper loop stops one early", file=U_, old="    for i in range(ind[-1], NB - 1):", new="    for i in range(ind[-1], NB - 2):"),
+    dict(prop="C15", name="window: include only one band (old bug shape)", file=U_, old="""                inside[i + 1] = True
+            else:""", new="""                inside[i + 1] = True
+                break
+            else:"""),
+    dict(prop="C15", name="window: revert the fix (lower edge)", file=U_, old="""                while j < NB - 1 and E[j + 1] - E[j] < thresh:
+                    j += 1
+                    inside[j] = False""", new="""                pass"""),
+    dict(prop="C15", name="window: <= thresh", file=U_, old="        if E[i] - E[i - 1] < thresh:", new="        if E[i] - E[i - 1] <= thresh:"),
+    dict(prop="C15", name="PRESERVING: window loop var renamed", file=U_, old="""                j = i
+                inside[j] = False
+                while j > 0 and E[j] - E[j - 1] < thresh:
+                    j -= 1
+                    inside[j] = False""", new="""                jj = i
+                inside[jj] = False
+                while jj > 0 and E[jj] - E[jj - 1] < thresh:
+                    jj -= 1
+                    inside[jj] = False""", expect="ok"),
     dict(prop="C14", name="c2 piece: 1-a23 -> 1-a13", file=T, old="a24 * (1 - a23))", new="a24 * (1 - a13))"),
     dict(prop="C14", name="coeff c12 uses e2", file=T, old="c12 = -3 * e1 * denom1", new="c12 = -3 * e2 * denom1"),
     dict(prop="C14", name="der2 c3 factor", file=T, old="occ[i] = 2 * c32 + 6 * c33 * ef", new="occ[i] = 2 * c32 + 3 * c33 * ef"),
